@@ -41,6 +41,9 @@ func (u *Unit) staticCallee(call *ast.CallExpr) *types.Func {
 }
 
 func (u *Unit) evalCall(call *ast.CallExpr, st *State) []Val {
+	if !u.inSpec {
+		st.markReached(call)
+	}
 	if cs, ok := u.atAsserts[call]; ok && !u.inSpec {
 		// the call's arguments are visible to the assertion as arg0, arg1, ...
 		argBind := map[string]Val{}
@@ -921,7 +924,7 @@ func isGhostVocabulary(f *types.Func) bool {
 		return false
 	}
 	switch f.Name() {
-	case "implies", "iff", "forall", "exists", "forall2", "forall3", "exists2", "old", "has", "keys", "dynIs", "unboxed", "seqEq", "setEq", "same", "typeOK", "unchangedExcept", "ite", "allocated", "isFresh", "sortedStrings", "permOf", "fst", "snd":
+	case "implies", "iff", "forall", "exists", "forall2", "forall3", "exists2", "old", "has", "keys", "dynIs", "unboxed", "seqEq", "setEq", "same", "typeOK", "unchangedExcept", "ite", "allocated", "isFresh", "sortedStrings", "permOf", "fst", "snd", "reached":
 		pos := f.Pos()
 		_ = pos
 		return true
